@@ -16,6 +16,7 @@ mod c14;
 mod vm;
 mod c18;
 mod c06;
+mod melmint;
 
 thread_local! {
     pub static LAST_PANIC: std::cell::RefCell<String> = Default::default();
@@ -81,6 +82,8 @@ fn main() {
             "c04_env" => vm::c04_env(r),
             "c10_step" => vm::c10_step(r),
             "c18_mint" => c18::c18_mint(r),
+            "pool_op" => melmint::pool_op(r),
+            "multiply_frac" => melmint::multiply_frac(r),
             "c11_weight" => vm::c11_weight(r),
             "c11_steps" => vm::c11_steps(r),
             "c11_weigh_time" => vm::c11_weigh_time(r),
